@@ -1,5 +1,6 @@
 import Cose.Msg.Model
 import Cose.Props.C04
+import Cose.Gen.Footprints
 /-!
 # C02 — tampered, spliced or mis-keyed signed/MACed messages never verify
 
@@ -136,5 +137,38 @@ theorem sign_first_signature_must_verify (m : Msg) (w : Wire) (s : SigObj) (rest
   simp only [verifySign.go, hl, ha, hr, Bool.false_eq_true, if_false]
   rw [tobe_sign_is_spec]
   simp [hv]
+
+
+/-! ## History freedom (regenerated facts about the message objects)
+
+The model's `verifyAuth` is a function of the decoded message, the key and the external data; a Go message object is
+mutable.  The facts below, re-extracted from the source on every run, are what makes the functional model faithful
+over *histories* of calls on one object (the correspondence op `msg.reuse` is the search that supports them):
+`UnmarshalCBOR` overwrites every field a later `Verify` reads, and `Verify` recomputes the to-be-signed bytes on every
+call — the cached copy (`toSign` / `toMac`) is only ever assigned and handed to the primitive, never read back. -/
+
+def fieldUses (meth field : String) : List String :=
+  (Footprints.footprints.filter (fun m => m.1 == meth)).flatMap (fun m => (m.2.2.filter (fun u => u.1 == field)).map (·.2))
+
+/-- `UnmarshalCBOR` of the four authenticated kinds assigns Protected, Unprotected, Payload and the retained wire
+    struct (and the recipients of a COSE_Mac): nothing of a previously decoded message survives -/
+theorem unmarshal_overwrites_everything_auth :
+    ["cose.Sign1Message", "cose.SignMessage", "cose.Mac0Message", "cose.MacMessage"].all (fun t =>
+      ["recv.Protected", "recv.Unprotected", "recv.Payload", "recv.mm"].all (fun f =>
+        (fieldUses (t ++ ".UnmarshalCBOR") f).contains "assigned")) = true
+    ∧ (fieldUses "cose.MacMessage.UnmarshalCBOR" "recv.recipients").contains "assigned" = true := by decide +kernel
+
+/-- `Verify` never reads a cached to-be-signed / to-be-MACed value: it assigns it and passes it to the primitive -/
+theorem verify_recomputes_tobe :
+    fieldUses "cose.Sign1Message.Verify" "recv.toSign" = ["arg:key.Verifier.Verify#0", "assigned"]
+    ∧ fieldUses "cose.Mac0Message.Verify" "recv.toMac" = ["arg:key.MACer.MACVerify#0", "assigned"]
+    ∧ fieldUses "cose.MacMessage.Verify" "recv.toMac" = ["arg:key.MACer.MACVerify#0", "assigned"]
+    ∧ fieldUses "cose.SignMessage.Verify" "recv.toSign" = [] := by decide +kernel
+
+/-- `Verify` writes nothing else: the decoded fields are read-only for it -/
+theorem verify_writes_only_the_cache :
+    ["cose.Sign1Message.Verify", "cose.SignMessage.Verify", "cose.Mac0Message.Verify", "cose.MacMessage.Verify"].all (fun m =>
+      ["recv.Protected", "recv.Unprotected", "recv.Payload", "recv.mm", "recv.recipients"].all (fun f =>
+        !(fieldUses m f).contains "assigned" && !(fieldUses m f).contains "addr")) = true := by decide +kernel
 
 end Cose.Props.C02
